@@ -875,3 +875,13 @@ V("join/meet leaves the last argument out", "C01", "geometer/point.py", _JM_OLD,
   "        result = TensorDiagram(*[(o, e) if covariant else (e, o) for o in args[:-1]]).calculate()", "E19.join", "_join_meet_duality", quick=True)
 V("twin: join/meet contracts the arguments in reverse order", "C01", "geometer/point.py", _JM_OLD,
   "        result = TensorDiagram(*[(o, e) if covariant else (e, o) for o in reversed(args)]).calculate()", "silent")
+
+
+# ------------------------------------------------------------------------------------------------ parallels and mirror images of the plane (E19.metric)
+V("mirror at a line joins both auxiliary points with the same circular point", "C10", POINT, "        m2 = join(p2, I, _normalize_result=False)", "        m2 = join(p2, J, _normalize_result=False)", "E19.metric", "LineTensor.mirror", quick=True)
+V("mirror at a line with the auxiliary lines exchanged", "C10", POINT, "        p1 = l.meet(l1)\n        p2 = l.meet(l2)", "        p1 = l.meet(l2)\n        p2 = l.meet(l1)", "E19.metric", "LineTensor.mirror")
+V("parallel through the intersection with a finite line", "C10", POINT, "        x = self.meet(infty_hyperplane(self.dim))\n        return join(x, through)", "        x = self.meet(Line(0, 1, 0))\n        return join(x, through)", "E19.metric", "SubspaceTensor.parallel")
+V("twin: parallel with the arguments of join exchanged", "C10", POINT, "        x = self.meet(infty_hyperplane(self.dim))\n        return join(x, through)", "        x = self.meet(infty_hyperplane(self.dim))\n        return join(through, x)", "silent")
+V("twin: mirror with the roles of I and J exchanged throughout", "C10", POINT,
+  "        l1 = join(I, pt, _normalize_result=False)\n        l2 = join(J, pt, _normalize_result=False)\n        p1 = l.meet(l1)\n        p2 = l.meet(l2)\n        m1 = join(p1, J, _normalize_result=False)\n        m2 = join(p2, I, _normalize_result=False)",
+  "        l1 = join(J, pt, _normalize_result=False)\n        l2 = join(I, pt, _normalize_result=False)\n        p1 = l.meet(l1)\n        p2 = l.meet(l2)\n        m1 = join(p1, I, _normalize_result=False)\n        m2 = join(p2, J, _normalize_result=False)", "silent")
